@@ -59,7 +59,7 @@ func EvalSymlinks(p string) (string, error) {
 	if _, err := vos.Stat(p); err != nil {
 		return "", err
 	}
-	return rfp.Clean(p), nil
+	return vos.Canon(p), nil
 }
 
 func hasMeta(p string) bool { return strings.ContainsAny(p, `*?[\`) }
